@@ -720,4 +720,43 @@ example :
     (.step (rest := [chars! "!! dy", chars! "z = 3"]) (by rfl)
       (.step (rest := [chars! "z = 3"]) (by rfl) (.step (rest := []) (by rfl) (.done (by rfl)))))
 
+
+/-- What becomes of a completed logical line is what `tailRaw` / `feedTailI` read: the buffer as it
+    is goes to the quote-aware split (`quoteSplit_lexical`: a `;` inside a literal never separates),
+    the non-empty pieces are stripped and queued - nothing else looks at or rewrites the text between
+    the continuation joining and the split. -/
+theorem split_site_pinned :
+    Generated.C02.splitSite = [
+      "frags = ford.utils.quote_split(';', linebuffer)",
+      "self.pending.extend([s.strip() for s in frags if len(s) > 0])"] := rfl
+
+
+/-- The doc lines of a logical line come after all of its statements: while statements are queued
+    nothing is taken from the doc buffer (`queued_statement_is_served_first`), and once the queue is
+    empty the buffered doc lines are returned one per call, in order, before anything new is read -
+    so `a; b !! d` gives `a`, `b`, `!! d` however many statements the line has. -/
+theorem buffered_doc_is_served_after_the_queue (c : Include.Cfg) (resolve : Str → Include.Res) (m : Marks)
+    (st : PassBack.St) (d : Str) (ds : List Str) (hq : st.pending = []) (hd : st.rs.docbuffer = d :: ds) :
+    PassBack.next c resolve m PassBack.readerOrder st
+      = .ok (some (d, { st with rs := { st.rs with docbuffer := ds, prevdoc := true }, pending := [] })) := by
+  have ho : PassBack.readerOrder = [.pending, .docbuffer] := by decide
+  simp [PassBack.next, PassBack.serve, PassBack.popPending, ho, hq, hd]
+
+/-- `read_docstring` called where no documentation follows (the next item is a queued statement)
+    returns no doc line and leaves the reader exactly as it was: the look-ahead the parser makes
+    after *every* declaration, procedure or type statement costs nothing when `;` put the next
+    statement on the same line. -/
+theorem read_docstring_without_docs_changes_nothing (c : Include.Cfg) (resolve : Str → Include.Res)
+    (m : Marks) (fuel : Nat) (st : PassBack.St) (p : Str) (rest : List Str) (hq : st.pending = p :: rest)
+    (hp : Include.look c.kwLoose resolve p = .keep) (hn : startsWith p ('!' :: m.doc) = false)
+    (hpd : st.rs.prevdoc = false) :
+    PassBack.readDocstring c resolve m PassBack.readerOrder PassBack.readerFront (fuel + 1) st
+      = .ok (some ([], st)) := by
+  have hf : PassBack.readerFront = true := by decide
+  simp only [PassBack.readDocstring, PassBack.collectDocs,
+    queued_statement_is_served_first c resolve m st p rest hq hp, hn]
+  obtain ⟨rs, pending, lines⟩ := st
+  obtain ⟨db, pd, ra, co, rp, rpa, lb⟩ := rs
+  simp_all [PassBack.passBack]
+
 end Ford.C02
